@@ -247,6 +247,8 @@ def cls_src(t, defs):
             lines.append('        pass')
     for f in info['fields']:
         ann = q('CatchAll') if f.get('catch_all') else ty_src(ftys[f['name']], defs)
+        if f.get('ann_str'):      # optional: the annotation is written as a string (forward reference, resolved by the library on first use)
+            ann = repr(ann)
         path = f.get('path')      # optional: {'keys': 'a.b' | ['a', 'b'], 'style': 'path_field' | 'keypath_ann' | 'aliaspath' | 'aliaspath_ann'}
         if path and path['style'].endswith('_ann'):
             fn = (_DW + 'KeyPath') if path['style'] == 'keypath_ann' else (_V1 + 'AliasPath')
